@@ -1,4 +1,5 @@
 import LapyVerif.Props.C05
+import LapyVerif.Props.C05b
 import LapyVerif.Props.C01
 import LapyVerif.Bridge.Fem
 /- axiom audit of C05 -/
@@ -15,3 +16,11 @@ import LapyVerif.Bridge.Fem
 #print axioms LapyVerif.Bridge.fem_tria_B
 #print axioms LapyVerif.Bridge.fem_tet_A
 #print axioms LapyVerif.Bridge.fem_tet_B
+#print axioms LapyVerif.Lemmas.telescope_sum_zero_v3
+#print axioms LapyVerif.Props.C05.flat_term
+#print axioms LapyVerif.Props.C05.affine_harmonic
+#print axioms LapyVerif.Props.C05.affine_harmonic_pos
+#print axioms LapyVerif.Props.C05.affine_harmonic_reorient
+#print axioms LapyVerif.Props.C05.balancedAt_iff
+#print axioms LapyVerif.Props.C05.balancedAt_of_interior
+#print axioms LapyVerif.Props.C05.balancedAt_of_closed
